@@ -1311,6 +1311,31 @@ def r5_10(ctx):
             ctx.check(guarded, f.fq, short(x), where, f"`{pn}` is known not to be self",
                       f"`{short(x)}` extends self.{attr} from a generator over `{pn}.{attr}`: when `{pn}` is the text itself the list grows while it is being iterated and the call never returns (t.append(t))")
     ctx.floor(n, 1, "self-extensions from a parameter's list in Text")
+    # the same aliasing, one level down: `self._text.append(text.plain)` takes the bound method of the CURRENT fragment list before the
+    # argument is evaluated; if reading `.plain` REBINDS `_text` to a fresh list (instead of normalising it in place) and `text` is the
+    # object itself, the fragment is appended to the abandoned list - the characters are lost while _length and the spans are updated
+    th = ctx.repo.cls(f"{TEXT_MOD}:Text")
+    getters = [g0 for g0 in th.methods.get("plain", []) if g0.is_property and len(g0.params) == 1]
+    if not getters:
+        raise AnchorVanished("Text.plain getter not found")
+    gt = getters[0]
+    rebinds = [x for x in walk_local(gt.node) if isinstance(x, (ast.Assign, ast.AnnAssign)) and any(
+        isinstance(t_, ast.Attribute) and t_.attr == "_text" and norm(t_.value) == gt.params[0] for t_ in (x.targets if isinstance(x, ast.Assign) else [x.target]))]
+    n_al = 0
+    for f in m.functions.values():
+        if f.cls is None or f.cls.name != "Text" or m.in_main_guard(f.node):
+            continue
+        params = set(f.params[1:])
+        for x in walk_local(f.node):
+            if not (isinstance(x, ast.Call) and isinstance(x.func, ast.Attribute) and isinstance(x.func.value, ast.Attribute) and x.func.value.attr == "_text" and norm(x.func.value.value) == "self"):
+                continue
+            reads = [y for a_ in x.args for y in ast.walk(a_) if isinstance(y, ast.Attribute) and y.attr == "plain" and isinstance(y.value, ast.Name) and y.value.id in params]
+            if not reads:
+                continue
+            n_al += 1
+            ctx.check(not rebinds, f.fq, short(x), f"{m.relpath}:{x.lineno}", "the plain getter normalises the fragment list in place: the list the bound method belongs to stays the text's list",
+                      f"`{short(x)}` evaluates `{norm(reads[0])}` after the bound `{norm(x.func)}` was taken, and the `plain` getter rebinds `_text` (`{short(rebinds[0]) if rebinds else ''}`): when `{reads[0].value.id}` is the text itself (t.append(t) after a previous append) the fragment goes to the abandoned list and is lost, while the length and the spans are updated")
+    ctx.floor(n_al, 1, "fragment appends that read a parameter's plain text")
 
 
 def r5_11(ctx):
